@@ -52,12 +52,12 @@ type Spec struct {
 	Bounded func(op sim.Op) bool
 }
 
-var polNames = map[string]int{"uniform": core.PolUniform, "sticky": core.PolSticky, "pct": core.PolPCT, "script": core.PolScript}
+var polNames = map[string]int{"uniform": core.PolUniform, "sticky": core.PolSticky, "pct": core.PolPCT, "lockstep": core.PolLockstep, "script": core.PolScript}
 
 func coreCfg(c *sim.Case, script []int16, strict, keepLog bool) core.Config {
 	s := c.Sched
 	cfg := core.Config{Seed: s.Seed, Policy: polNames[s.Policy], StickyPct: s.StickyPct, PCTDepth: s.PCTDepth,
-		PCTLen: s.PCTLen, FreezeAt: s.FreezeAt, Probe: s.Probe, TickPct: s.TickPct, SpinBurn: s.SpinBurn, ClockJumpPct: s.ClockJumpPct, MaxSteps: s.MaxSteps, KeepLog: keepLog}
+		PCTLen: s.PCTLen, Quanta: s.Quanta, FreezeAt: s.FreezeAt, Probe: s.Probe, TickPct: s.TickPct, SpinBurn: s.SpinBurn, ClockJumpPct: s.ClockJumpPct, MaxSteps: s.MaxSteps, KeepLog: keepLog}
 	for _, st := range s.Stalls {
 		cfg.Stalls = append(cfg.Stalls, core.Stall{T: st.T, At: st.At, For: st.For, AfterW: st.AfterW, AfterS: st.AfterS})
 	}
@@ -519,7 +519,12 @@ func Overlapped(recs [][]sim.Rec, t, i int) bool {
 // GenSched draws a scheduler configuration (swarm).
 func GenSched(r *sim.Rng, nThreads, totalOps int, probe int, allowFreeze bool) *sim.SchedCfg {
 	s := &sim.SchedCfg{Seed: r.U64() >> 12, FreezeAt: -1, Probe: probe, MaxSteps: 20000}
-	switch r.Pick(3, 4, 3) {
+	switch r.Pick(6, 8, 6, 1) {
+	case 3:
+		s.Policy = "lockstep"
+		for t := 0; t < nThreads+1; t++ {
+			s.Quanta = append(s.Quanta, r.Range(1, 6))
+		}
 	case 0:
 		s.Policy = "uniform"
 	case 1:
